@@ -97,6 +97,8 @@ package lastgersync
 //@   modifies *cast(dst, *GlobalExitRootInfo)
 //@   ensures result == nil ==> exists(b, int, gerHas[b] && gerIdxAt[b] == cast(dst, *GlobalExitRootInfo).L1InfoTreeIndex && gerRootAt[b] == cast(dst, *GlobalExitRootInfo).GlobalExitRoot) && cast(dst, *GlobalExitRootInfo).L1InfoTreeIndex >= unbox(args[0], uint32) && forall(b, int, (gerHas[b] && gerIdxAt[b] >= unbox(args[0], uint32)) ==> gerIdxAt[b] >= cast(dst, *GlobalExitRootInfo).L1InfoTreeIndex)
 //@   ensures (result != nil && isErr(result, sql.ErrNoRows)) ==> forall(b, int, gerHas[b] ==> gerIdxAt[b] < unbox(args[0], uint32))
+// (the library's errors neither are nor wrap the repository's "not found")
+//@   ensures (result != nil && !isErr(result, sql.ErrNoRows)) ==> !isErr(result, errvar("db.ErrNotFound"))
 
 //@ func (p *processor) GetFirstGERAfterL1InfoTreeIndex (p, ctx, l1InfoTreeIndex)
 //@   props C16
@@ -105,7 +107,7 @@ package lastgersync
 //@   modifies nothing
 //@   ensures[a-present-row-at-or-above] result1 == nil ==> result0.L1InfoTreeIndex >= l1InfoTreeIndex && exists(b, int, gerHas[b] && gerIdxAt[b] == result0.L1InfoTreeIndex && gerRootAt[b] == result0.GlobalExitRoot)
 //@   ensures[the-first-such-row] result1 == nil ==> forall(b, int, (gerHas[b] && gerIdxAt[b] >= l1InfoTreeIndex) ==> gerIdxAt[b] >= result0.L1InfoTreeIndex)
-//@   ensures[not-found-only-if-none-exists] result1 == db.ErrNotFound ==> forall(b, int, gerHas[b] ==> gerIdxAt[b] < l1InfoTreeIndex)
+//@   ensures[not-found-only-if-none-exists] isErr(result1, db.ErrNotFound) ==> forall(b, int, gerHas[b] ==> gerIdxAt[b] < l1InfoTreeIndex)
 
 // ---- reorg of the injected-GER store (C04): a single DELETE over the block table (pinned); the rows of
 // imported_global_exit_root follow by ON DELETE CASCADE (block_num REFERENCES block(num), assumed A5)
